@@ -279,6 +279,11 @@ func strRepeatFunc(_ *ctx.EvalCtx, receiver object.Object, args ...object.Object
 		return nil, errors.New(msg)
 	}
 
+	if firstArg.Value < 0 {
+		msg := fmt.Sprintf(fail.ErrFuncFirstArgNotNegative, "repeat", object.STR_OBJ)
+		return nil, errors.New(msg)
+	}
+
 	val := receiver.(*object.Str).Value
 	repeated := strings.Repeat(val, int(firstArg.Value))
 
